@@ -16,6 +16,7 @@ import (
 	"math/big"
 	"sort"
 	"strings"
+	"sync"
 	"time"
 
 	"github.com/xuperchain/xupercore/bcs/ledger/xledger/state"
@@ -205,19 +206,65 @@ func (e *Exec) opMine(kv map[string]string) string {
 		w.Cons.restamp = true
 		e.out.Count("mine:restamped-by-consensus")
 	}
+	// fault=state|ledger: the first storage write group of this round that goes to the state store / the ledger store
+	// fails (nothing of it is applied). In a round that neither truncates nor walks these are the single batch of
+	// State.PlayForMiner and the batch of Ledger.ConfirmBlock.
+	fault, hit := kv["fault"], false
+	tip0 := append([]byte{}, w.P.L.GetMeta().TipBlockid...)
+	if fault != "" {
+		if (fault != "state" && fault != "ledger") || k > 0 || recovering {
+			return "bad-op"
+		}
+		store := w.P.StatePath()
+		if fault == "ledger" {
+			store = w.P.LedgerPath()
+		}
+		var fmu sync.Mutex
+		kvmem.SetWriteFault(func(path string) bool {
+			fmu.Lock()
+			defer fmu.Unlock()
+			if !hit && path == store {
+				hit = true
+				return true
+			}
+			return false
+		})
+	}
 	w.Net.drain()
 	nconf := len(w.Cons.confirmed)
 	merr := w.Miner.VerifMining(w.P.Ctx)
+	kvmem.SetWriteFault(nil)
 	state.VerifWaitRecover()
-	if merr != nil {
+	if fault != "" && !hit {
+		e.out.Stats.Notes = append(e.out.Stats.Notes, "mine fault="+fault+": no write group reached that store")
+	}
+	// the round failed on the injected fault: what the ledger holds now is what peers are served (block sync); the
+	// state follows at the start of the next round (Miner.mining: ledger tip != state tip -> State.Walk)
+	faulted := hit && merr != nil
+	if faulted {
+		e.out.Count("mine:round-failed-on-injected-fault:" + fault)
+		if bytes.Equal(w.P.L.GetMeta().TipBlockid, tip0) {
+			return fmt.Sprintf("failed h=%d", w.P.L.GetMeta().TrunkHeight)
+		}
+		e.out.Count("mine:block-in-ledger-not-played")
+	}
+	if merr != nil && !faulted {
 		e.violate("mining-failed", fmt.Sprintf("Miner.mining fails on a pool of admitted transactions (truncate %d block(s)): %v", k, merr))
 		e.broken = true
 		return "-"
 	}
 	e.out.Count("mine:rounds")
 	tip := w.P.L.GetMeta().TipBlockid
-	blk, berr := w.Net.nextBlock(10 * time.Second)
-	if berr != nil || blk == nil {
+	var blk *pb.InternalBlock
+	var berr error
+	if faulted {
+		if blk, err = w.P.L.QueryBlock(tip); err != nil {
+			e.violate("trunk-unreadable", fmt.Sprintf("the block the failed round left at the tip of the ledger cannot be read: %v", err))
+			e.broken = true
+			return "-"
+		}
+		blk = chainlib.CloneBlock(blk)
+	} else if blk, berr = w.Net.nextBlock(10 * time.Second); berr != nil || blk == nil {
 		e.violate("block-not-broadcast", fmt.Sprintf("the miner did not broadcast the block it produced: %v", berr))
 		if blk, err = w.P.L.QueryBlock(tip); err != nil {
 			e.broken = true
@@ -227,7 +274,7 @@ func (e *Exec) opMine(kv map[string]string) string {
 	if !bytes.Equal(blk.Blockid, tip) {
 		e.violate("mined-block-not-tip", fmt.Sprintf("the miner broadcast block %x, the tip of its ledger is %x", blk.Blockid, tip))
 	}
-	if len(w.Cons.confirmed) != nconf+1 || !bytes.Equal(w.Cons.confirmed[nconf], blk.Blockid) {
+	if !faulted && (len(w.Cons.confirmed) != nconf+1 || !bytes.Equal(w.Cons.confirmed[nconf], blk.Blockid)) {
 		e.violate("consensus-not-notified", "Consensus.ProcessConfirmBlock was not called exactly once with the produced block")
 	}
 	ids := e.blockIDs(blk, "m0")
@@ -292,6 +339,9 @@ func (e *Exec) opMine(kv map[string]string) string {
 		sort.Ints(fired)
 	}
 	ans := fmt.Sprintf("h=%d award=%s timer=%s", blk.Height, awardOf(blk), idsOr(fired, "-"))
+	if faulted {
+		ans = fmt.Sprintf("failed h=%d", blk.Height)
+	}
 	if citesLater == "" {
 		switch {
 		case nAuto > 1:
@@ -353,8 +403,29 @@ func (e *Exec) opMine(kv map[string]string) string {
 		e.broken = true
 		return ans
 	}
+	if faulted {
+		// (the producer's state still stands on the parent block; the next round walks it to the ledger tip)
+		return ans
+	}
 	e.reconcile()
 	left, _ := e.realPool()
+	// the total supply is the genesis amount plus the awards of the trunk, whatever is still pending
+	if a, b := w.P.S.GetTotal().String(), w.R.S.GetTotal().String(); a != b {
+		e.violate("replica-state-differs:total", fmt.Sprintf("after the mined block (height %d): total supply of the producer %s, of the node that replayed its blocks %s", blk.Height, a, b))
+	}
+	if recovering || kv["fresh"] == "1" {
+		// what the producer has stored: a copy of its storage image, opened as after a restart
+		e.seq++
+		if c, err := w.P.OpenCopy(e.scratch, fmt.Sprintf("ro%d", e.seq)); err != nil {
+			e.violate("producer-image-unreadable", fmt.Sprintf("a copy of the producer's storage image cannot be opened after the round: %v", err))
+		} else {
+			if a, b := c.S.GetTotal().String(), w.R.S.GetTotal().String(); a != b {
+				e.violate("replica-state-differs:total-after-restart", fmt.Sprintf("after the mined block (height %d): total supply stored by the producer %s, of the node that replayed its blocks %s", blk.Height, a, b))
+			}
+			kvmem.Drop(c.Root)
+			e.out.Count("mine:producer-image-reopened")
+		}
+	}
 	if len(left) == 0 {
 		a, b := e.observe(w.P), e.observe(w.R)
 		if a != b {
